@@ -6,4 +6,4 @@ Extraction Language OCaml.
 Set Extraction KeepSingleton.
 Extraction "model_ser.ml" errno
   Z.add Z.sub Z.mul Z.div Z.modulo Z.abs Z.opp Z.leb Z.ltb Z.eqb Z.of_nat Z.to_nat Z.of_N Z.to_N
-  jv flags_of serialize to_json_string_length hop hop_apply serialize_in fmt_init set_format effective tok_new parse_ex_cstr jv_equal.
+  jv flags_of serialize to_json_string_length hop hop_apply with_pieces serialize_in fmt_init set_format effective tok_new parse_ex_cstr jv_equal.
